@@ -153,7 +153,7 @@ Proof.
   destruct (root_specials est (with_traps c t) x 3) as [[r'|]| |], (root_specials est c x 3) as [[r0|]| |]; cbn [bind];
     try contradiction; try reflexivity;
     try (destruct Hs as [H1 H2]; cbn [strip]; rewrite H1, H2; reflexivity); try (rewrite Hs; reflexivity).
-  cbv zeta. cbn [prec emax emin with_traps].
+  cbv zeta. cbn [prec emax emin with_traps]. change (etiny (with_traps c t)) with (etiny c).
   change (ctx_round est (mkCtx (prec c) (emax c) (emin c) (traps (with_traps c t)) RHalfEven))
     with (ctx_round est (mkCtx (prec c) (emax c) (emin c) (traps c) RHalfEven)).
   change (ctx_round est (with_traps c t)) with (ctx_round est c).
